@@ -6,5 +6,6 @@ NoneLen = 1
 PairAll = FALSE
 PairHostile = 1
 PartnerAll = FALSE
+LetterLen = 2
 INIT GenInit
 NEXT GenNext
